@@ -205,6 +205,7 @@ class Collection(AbstractPriorModel):
             except AttributeError:
                 pass
 
+    @assert_not_frozen
     def remove(self, item):
         for key, value in self.__dict__.copy().items():
             if value == item:
